@@ -29,6 +29,8 @@
 //!   threads: [[op..]..]                      global: bool (set_global_default; one case per process)
 //! ops: {"op":"enter","cs":k,"vals":[v..],"parent":null|-1|i}   {"op":"exit"}   {"op":"record","f":name,"v":v}
 //!      {"op":"event","cs":k,"vals":[v..],"parent":null|-1|i}    {"op":"sync"}
+//!      {"op":"reconf","se":[..],"how":"modify"|"reload"}  (case "reloadable": true: the fmt layer sits behind reload::Subscriber)
+//!         modify = Handle::modify(|s| s.set_span_events(mask)); reload = Handle::reload(a new fmt subscriber configured with mask)
 //!      {"op":"direct","text":s,"method":"write_all"|"write"|"write_vectored"|"write_fmt"|"flush"}  (make_writer() + one call)
 //!      {"op":"race","a":{"f":name,"v":text},"b":{"f":name,"v":text},"wait_ms":N}  two helper threads `record` one field each
 //!         on clones of the innermost open span AT THE SAME TIME: a's Debug impl (running inside on_record) lets b start and
@@ -622,6 +624,7 @@ impl FormatTime for FakeTime {
 
 type BoxedLayer = Box<dyn Subscribe<Registry> + Send + Sync>;
 
+#[derive(Clone)]
 struct Opts {
     ansi: bool,
     target: bool,
@@ -635,35 +638,97 @@ struct Opts {
     span_events: FmtSpan,
 }
 
-macro_rules! finish_layer {
-    ($l:expr, $o:expr) => {{
-        let l = $l
-            .with_ansi($o.ansi)
-            .with_target($o.target)
-            .with_level($o.level)
-            .with_thread_ids($o.tid)
-            .with_thread_names($o.tname)
-            .with_file($o.file)
-            .with_line_number($o.line)
-            .with_span_events($o.span_events.clone())
-            .log_internal_errors($o.lie);
-        if $o.timer {
-            Box::new(l.with_timer(FakeTime)) as BoxedLayer
+/// Reconfiguration of a RELOADABLE fmt layer ("reloadable": true): the layer sits behind `reload::Subscriber`;
+/// `(mask, None)` = `Handle::modify(|s| s.set_span_events(mask))`, `(mask, Some(writer))` = `Handle::reload(<a new fmt
+/// subscriber of the same type, configured with mask>)`.
+type Reconf = Box<dyn Fn(FmtSpan, Option<BoxMakeWriter>) + Send + Sync>;
+
+macro_rules! reloadable {
+    ($mk:expr, $w:expr, $se:expr, $reload:expr) => {{
+        let mk = $mk;
+        let l = mk($w, $se);
+        if $reload {
+            let (rl, h) = tracing_subscriber::reload::Subscriber::new(l);
+            let rc: Reconf = Box::new(move |se: FmtSpan, w: Option<BoxMakeWriter>| match w {
+                None => h.modify(|s| s.set_span_events(se)).expect("reload::Handle::modify"),
+                Some(w) => h.reload(mk(w, se)).expect("reload::Handle::reload"),
+            });
+            (Box::new(rl) as BoxedLayer, Some(rc))
         } else {
-            Box::new(l.without_time()) as BoxedLayer
+            (Box::new(l) as BoxedLayer, None)
         }
     }};
 }
 
-fn layer(format: &str, o: &Opts, w: BoxMakeWriter) -> BoxedLayer {
-    let base = tfmt::Subscriber::<Registry>::new().with_writer(w);
+macro_rules! finish_layer {
+    ($o:expr, $w:expr, $reload:expr $(, $m:ident)?) => {{
+        let o: Opts = $o.clone();
+        let se0 = o.span_events.clone();
+        if o.timer {
+            reloadable!(
+                move |w: BoxMakeWriter, se: FmtSpan| tfmt::Subscriber::<Registry>::new()
+                    .with_writer(w)
+                    $(.$m())?
+                    .with_ansi(o.ansi)
+                    .with_target(o.target)
+                    .with_level(o.level)
+                    .with_thread_ids(o.tid)
+                    .with_thread_names(o.tname)
+                    .with_file(o.file)
+                    .with_line_number(o.line)
+                    .with_span_events(se)
+                    .log_internal_errors(o.lie)
+                    .with_timer(FakeTime),
+                $w,
+                se0,
+                $reload
+            )
+        } else {
+            reloadable!(
+                move |w: BoxMakeWriter, se: FmtSpan| tfmt::Subscriber::<Registry>::new()
+                    .with_writer(w)
+                    $(.$m())?
+                    .with_ansi(o.ansi)
+                    .with_target(o.target)
+                    .with_level(o.level)
+                    .with_thread_ids(o.tid)
+                    .with_thread_names(o.tname)
+                    .with_file(o.file)
+                    .with_line_number(o.line)
+                    .with_span_events(se)
+                    .log_internal_errors(o.lie)
+                    .without_time(),
+                $w,
+                se0,
+                $reload
+            )
+        }
+    }};
+}
+
+fn layer(format: &str, o: &Opts, w: BoxMakeWriter, reload: bool) -> (BoxedLayer, Option<Reconf>) {
     match format {
-        "full" => finish_layer!(base, o),
-        "compact" => finish_layer!(base.compact(), o),
-        "pretty" => finish_layer!(base.pretty(), o),
-        "json" => finish_layer!(base.json(), o),
+        "full" => finish_layer!(o, w, reload),
+        "compact" => finish_layer!(o, w, reload, compact),
+        "pretty" => finish_layer!(o, w, reload, pretty),
+        "json" => finish_layer!(o, w, reload, json),
         x => panic!("bad format {}", x),
     }
+}
+
+fn span_mask(j: &J) -> FmtSpan {
+    let mut se = FmtSpan::NONE;
+    for s in j.as_array().map(|a| a.as_slice()).unwrap_or(&[]) {
+        se = se
+            | match s.as_str().unwrap() {
+                "new" => FmtSpan::NEW,
+                "enter" => FmtSpan::ENTER,
+                "exit" => FmtSpan::EXIT,
+                "close" => FmtSpan::CLOSE,
+                x => panic!("bad span event {}", x),
+            };
+    }
+    se
 }
 
 // ------------------------------------------------------------------------------------------------
@@ -688,6 +753,8 @@ fn run_program(
     barrier: &Barrier,
     caught: &Mutex<Vec<J>>,
     races: &Mutex<Vec<J>>,
+    reconf: &Option<Reconf>,
+    mkw: &(dyn Fn() -> BoxMakeWriter + Send + Sync),
 ) {
     let mut stack: Vec<tracing::span::EnteredSpan> = Vec::new();
     for (k, op) in prog.iter().enumerate() {
@@ -794,6 +861,16 @@ fn run_program(
             "sync" => {
                 barrier.wait();
             }
+            "reconf" => {
+                // the documented run-time reconfiguration of a fmt subscriber behind reload::Subscriber
+                let rc = reconf.as_ref().expect("reconf op in a case that is not reloadable");
+                let se = span_mask(&op["se"]);
+                match op["how"].as_str().unwrap_or("modify") {
+                    "modify" => rc(se, None),
+                    "reload" => rc(se, Some(mkw())),
+                    x => panic!("bad reconf how {}", x),
+                }
+            }
             x => panic!("bad op {}", x),
         }
     }
@@ -807,17 +884,7 @@ fn run_case(case: &J) -> J {
     let sinks: Vec<RecSink> = (0..nsinks).map(|id| RecSink { id, log: log.clone(), wctr: wctr.clone() }).collect();
     let o = &case["opts"];
     let b = |k: &str| o[k].as_bool().unwrap_or(false);
-    let mut se = FmtSpan::NONE;
-    for s in o["span_events"].as_array().map(|a| a.as_slice()).unwrap_or(&[]) {
-        se = se
-            | match s.as_str().unwrap() {
-                "new" => FmtSpan::NEW,
-                "enter" => FmtSpan::ENTER,
-                "exit" => FmtSpan::EXIT,
-                "close" => FmtSpan::CLOSE,
-                x => panic!("bad span event {}", x),
-            };
-    }
+    let se = span_mask(&o["span_events"]);
     let opts = Opts {
         ansi: b("ansi"),
         target: b("target"),
@@ -851,7 +918,12 @@ fn run_case(case: &J) -> J {
         .map(|a| a.iter().map(|th| th.as_object().map(|o| o.iter().map(|(k, v)| (k.parse().expect("call index"), v.as_str().unwrap().to_string())).collect()).unwrap_or_default()).collect())
         .unwrap_or_default();
     let tfaults = Arc::new(tfaults);
-    let lay = layer(case["format"].as_str().unwrap(), &opts, writer);
+    let (lay, reconf) = layer(case["format"].as_str().unwrap(), &opts, writer, case["reloadable"].as_bool().unwrap_or(false));
+    let reconf = Arc::new(reconf);
+    let mkw: Arc<dyn Fn() -> BoxMakeWriter + Send + Sync> = {
+        let (wj, sinks, kinds) = (case["writer"].clone(), sinks.clone(), kinds.clone());
+        Arc::new(move || build(&wj, &sinks, &kinds))
+    };
     let dispatch = Dispatch::new(Registry::default().with(lay));
     let callsites: Arc<Vec<&'static Metadata<'static>>> = Arc::new(case["callsites"].as_array().unwrap().iter().map(mk_callsite).collect());
     let global = case["global"].as_bool().unwrap_or(false);
@@ -873,6 +945,7 @@ fn run_case(case: &J) -> J {
             (dispatch.clone(), callsites.clone(), direct.clone(), barrier.clone(), caught.clone(), tids.clone(), faults.clone(), tids_plain.clone());
         let races = races.clone();
         let tfaults = tfaults.clone();
+        let (reconf, mkw) = (reconf.clone(), mkw.clone());
         // fixed-width names: FmtThreadName pads to the longest name seen by the process
         let h = std::thread::Builder::new()
             .name(format!("wk{:02}", t))
@@ -887,10 +960,10 @@ fn run_case(case: &J) -> J {
                 let prog = prog.as_array().unwrap().clone();
                 barrier.wait();
                 if global {
-                    run_program(t, &prog, &callsites, &direct, &barrier, &caught, &races);
+                    run_program(t, &prog, &callsites, &direct, &barrier, &caught, &races, &reconf, &*mkw);
                 } else {
                     CUR.with(|c| *c.borrow_mut() = Some(dispatch.clone()));
-                    tracing_core::dispatch::with_default(&dispatch, || run_program(t, &prog, &callsites, &direct, &barrier, &caught, &races));
+                    tracing_core::dispatch::with_default(&dispatch, || run_program(t, &prog, &callsites, &direct, &barrier, &caught, &races, &reconf, &*mkw));
                     CUR.with(|c| *c.borrow_mut() = None);
                 }
             })
